@@ -1314,6 +1314,7 @@ func checkC19(c *Check) {
 	c.Rule("R14", "the queue ends each downstream delivery exactly once (C01.R1): remoteDelivery.Close hands its connections to the pool – a second Abort returns the same connection twice and two deliveries share one SMTP session", 2)
 	importRules(c, "C01", c01Deliver, map[string]bool{"R1": true}, "R14")
 	c19ConfigNotRewritten(c, "R15")
+	c19ReturnOwnsConn(c, "R16")
 }
 
 // R8: the pool never waits on a bucket. A bucket channel is bounded (the idle-count limit, possibly 0); a send that
